@@ -175,6 +175,10 @@ fn canon_coveralls(v: &Value) -> Result<String, String> {
     Ok(format!("ok {}", files.join(" ")).trim_end().to_string())
 }
 
+pub(crate) fn canon_coveralls_pub(v: &Value) -> Result<String, String> {
+    canon_coveralls(v)
+}
+
 /// the clauses of C03 on a decoded Coveralls document (lines >= 1 only: the quantifier of C03)
 fn oracle_coveralls(v: &Value, rs: &RS, plus: bool) -> Result<(), String> {
     let sfs = v["source_files"].as_array().ok_or("no source_files")?;
